@@ -480,6 +480,7 @@ pub fn run(ctx: &Ctx) -> i32 {
         check_tape_c(tape, &g, stats, counting, &shown_budget)
     });
     rep.add(out);
+    crate::fuzzrun::tape_campaign(ctx, &mut rep, "C05", &gates);
     rep.replay_witnesses(&ctx.findings, &|w| witness(w, &Gates::all_on()));
     rep.extra.insert("gates_off".into(), json!(off));
     rep.assumptions = vec![
@@ -534,4 +535,12 @@ pub fn replay(ctx: &Ctx, v: &Value) -> i32 {
             1
         }
     }
+}
+
+/// one tape through the in-process oracles (used by the coverage-guided `tapes` fuzz target)
+pub fn fuzz_one(tape: &[u8], gates: &Gates) -> Result<(), Failure> {
+    let mut s = Stats::default();
+    let zero = std::sync::atomic::AtomicI64::new(0);
+    check_tape_ab(tape, gates, &mut s, false)?;
+    check_tape_c(tape, gates, &mut s, false, &zero)
 }
